@@ -6,6 +6,7 @@ sys.path.insert(0, os.path.join(os.path.dirname(os.path.abspath(__file__)), ".."
 from vlib import *
 
 HARD_FEATURE = {"keywords": "keyword-identifier", "container-keys": "container-key"}
+FIXED_FILES = ["inc.frugal", "left.frugal", "right.frugal", "a/common.frugal", "b/common.frugal"]   # written by idlcheck next to every program
 PY2 = "/root/.pyenv/versions/2.7.18/bin/python"
 TARGETS = ["go", "java", "dart", "py", "py:asyncio", "py:tornado", "json", "html"]
 OPTIONS = {"go": ["", "go:package_prefix=verifharness/x/", "go:async,slim", "go:frugal_import=github.com/Workiva/frugal/lib/go,thrift_import=github.com/apache/thrift/lib/go/thrift"],
@@ -265,7 +266,9 @@ def run(ctx):
         d = os.path.join(mdir, "m%04d" % k)
         os.makedirs(d)
         open(os.path.join(d, "main.frugal"), "w", errors="replace").write(t)
-        shutil.copy(os.path.join(rdir, dirs[0], "inc.frugal"), d)
+        for fx in FIXED_FILES:
+            os.makedirs(os.path.dirname(os.path.join(d, fx)), exist_ok=True)
+            shutil.copy(os.path.join(rdir, dirs[0], fx), os.path.join(d, fx))
         jobs.append(("m%04d" % k, "mutated", d, "main.frugal", rng.choice(["go", "java", "py", "dart", "json", "html"]), "either", os.path.join(outroot, "m%04d" % k)))
 
     def one(job):
